@@ -135,6 +135,19 @@ def make_run(W, shape, known_active=None):
                 def cond(x):
                     return bool(getattr(x, "flag", True))
                 types.append(Dependent[class_check(mkpred(t[1])), cond])
+            elif t[0] in ("upred", "udeppred"):
+                # a user class predicate inside a union that also has a value-dependent member: the union is checked at run time by generated
+                # code, which must not ask the predicate again for a class it has already seen
+                from ovld import Dependent
+                from ovld.types import Union as OUnion
+
+                def cond2(x):
+                    return bool(getattr(x, "flag", True))
+                # (the other members are ordinary concrete classes: an isinstance test against a harness class would itself count as a consultation)
+                if t[0] == "upred":
+                    types.append(OUnion[class_check(mkpred(t[1])), Dependent[object, cond2]])
+                else:
+                    types.append(OUnion[Dependent[class_check(mkpred(t[1])), cond2], int])
         extra = {f"FW{m}": inst(md["fw"]) for m, md in enumerate(methods) if md["kind"] in ("rec", "fwd")}
         hs, LOG, ns = ms.instantiate(W, extra=extra)
         ov = Ovld()
@@ -148,11 +161,18 @@ def make_run(W, shape, known_active=None):
         trace = []
         ok = True
 
-        def phase(label):
+        parent = ov
+        if shape.get("linked"):
+            # the calls go to a linked variant; its parent is used for the first time later (not a change of the variant's methods)
+            ov = parent.copy(linkback=True)
+            ov.ensure_compiled()          # (a copy has no public function object before its first build)
+        warm = {}
+
+        def phase(label, warmup=True):
             nonlocal ok
-            warm = {}
-            for c in CH:
-                warm[c] = full_outcome(lambda: ov.dispatch(inst(c)), LOG)
+            if warmup:
+                for c in CH:
+                    warm[c] = full_outcome(lambda: ov.dispatch(inst(c)), LOG)
             for c in reversed(CH):
                 before = total()
                 again = full_outcome(lambda: ov.dispatch(inst(c)), LOG)
@@ -163,8 +183,12 @@ def make_run(W, shape, known_active=None):
                         ok = False
 
         phase("initial")
+        if shape.get("linked"):
+            for c in CH:
+                full_outcome(lambda: parent.dispatch(inst(c)), LOG)      # first use of the parent: builds the parent only
+            phase("after the parent's first use", warmup=False)
         hs[M].__annotations__ = {"x": W.K[2] if n > 2 else object}
-        ov.register(hs[M], priority=(CountInt(0) if shape.get('equal_prio') else W.prio[M]))
+        parent.register(hs[M], priority=(CountInt(0) if shape.get('equal_prio') else W.prio[M]))
         phase("after register")
         succ = sum(1 for t in trace if t["warm"][1][0] == "ret")
         return Verdict(ok, (), dict(trace=trace), [f"succ{succ}"], nontrivial=succ >= 2)
@@ -175,11 +199,11 @@ def make_run(W, shape, known_active=None):
 def gen_shapes(tier, seed):
     rng = random.Random(seed)
     n = 3
-    T = [("K", 0), ("K", 1), ("K", 2), ("obj",), ("pred", 0), ("pred", 1), ("hook",), ("deppred", 0), ("deppred", 1)]
+    T = [("K", 0), ("K", 1), ("K", 2), ("obj",), ("pred", 0), ("pred", 1), ("hook",), ("deppred", 0), ("deppred", 1), ("upred", 0), ("udeppred", 1)]
     kinds = ["ret", "next", "rec", "fwd"]
     allshapes = []
     for mt in itertools.product(T, repeat=3):
-        if not any(t[0] in ("pred", "hook", "deppred") for t in mt):
+        if not any(t[0] in ("pred", "hook", "deppred", "upred", "udeppred") for t in mt):
             continue
         for ks in itertools.product(kinds, repeat=3):
             md = [dict(t=list(t), kind=k) for t, k in zip(mt, ks)]
@@ -190,8 +214,9 @@ def gen_shapes(tier, seed):
     total = len(allshapes)
     rng.shuffle(allshapes)
     out = allshapes[: 160 if tier == "quick" else 640]
-    for sh in out:
+    for i, sh in enumerate(out):
         sh["equal_prio"] = tier == "quick"
+        sh["linked"] = i % 4 == 3
     return out, total, True
 
 
@@ -214,7 +239,8 @@ def main(tier, seed):
         PID, tier, seed, t0, results,
         bounds=dict(classes=3, methods="3 (+1 registered after the first phase)", positions=1,
                     annotations="harness classes, object, two class_check(predicate) types, Dependent[class_check(predicate), condition], one user type with __type_order__/__is_supertype__ hooks",
-                    bodies="return | call_next(x) | recurse(other) | call_next(other)", calls="warm-up of K0, K1, object(); then each again; register; both phases again",
+                    bodies="return | call_next(x) | recurse(other) | call_next(other)", calls="warm-up of K0, K1, object(); then each again; register; both phases again; every 4th method set: the calls go to a linkback copy, "
+                    "whose parent is used for the first time between the phases (no re-warm allowed) and receives the registration",
                     hook_answers="predicates: one solver boolean per (predicate, class); hooks: supertype boolean per class, order chosen among "
                                  "LESS/MORE/NONE/NotImplemented per class",
                     priorities="all equal (quick) / symbolic integers (thorough)",
